@@ -17,6 +17,7 @@ CR(l) == [l EXCEPT !.cr = TRUE]
 
 Voc == <<
   Other("foo"), L(Other("b.r"), "  ", "  "), L(Other("(?:x|y)+"), "\t", ""), CR(Other("foo")),
+  CR(L(Other("dbl"), "", "\r")),           \* a line that went through CR LF conversion twice
   Other("[A-Z]x") @@ [uc |-> TRUE],
   L(Other("\fq"), " ", ""),        \* the entry itself starts with white space that is not indentation (form feed)
   Other("##! comment"), L(Other("##! ##!> include looks-like"), " ", ""), Other("##!=>"), L(Other("##!=< x"), "    ", " "), Other("##!=> x"),
